@@ -137,6 +137,7 @@ func (st *State) allocRef() string {
 }
 
 const cntSort = "(Array Int (Array Int Int))"
+const lvSort = "(Array Int (Array Int Iface))"
 
 func (st *State) logEvent(ev string) {
 	c := st.c
@@ -148,6 +149,9 @@ func (st *State) logEvent(ev string) {
 	t := c.define("evt", "Int", fmt.Sprintf("(ite (or (= %s 1) (= %s 2) (= %s 4)) (i_tag (ev_val %s)) (ev_ch %s))", k, k, k, e, e))
 	cnt := st.heap("CNT", cntSort)
 	st.setHeap("CNT", cntSort, fmt.Sprintf("(store %s %s (store (select %s %s) %s (+ (select (select %s %s) %s) 1)))", cnt, k, cnt, k, t, cnt, k, t))
+	// ghost: the payload of the most recent event per (kind, dynamic type | code)
+	lv := st.heap("LV", lvSort)
+	st.setHeap("LV", lvSort, fmt.Sprintf("(store %s %s (store (select %s %s) %s (ev_val %s)))", lv, k, lv, k, t, e))
 	cnc := st.heap("CNC", cntSort)
 	ch := "(ev_ch " + e + ")"
 	st.setHeap("CNC", cntSort, fmt.Sprintf("(store %s %s (store (select %s %s) %s (+ (select (select %s %s) %s) 1)))", cnc, k, cnc, k, ch, cnc, k, ch))
@@ -162,6 +166,16 @@ func (st *State) havocLog() {
 	st.assume(fmt.Sprintf("(>= %s %s)", st.evlen, oldLen))
 	// prefix preserved: stated pointwise through an uninterpreted witness-free quantifier
 	st.assume(fmt.Sprintf("(forall ((k!p Int)) (! (=> (and (<= 0 k!p) (< k!p %s)) (= (select %s k!p) (select %s k!p))) :pattern ((select %s k!p))))", oldLen, st.evlog, oldLog, st.evlog))
+	// the most recent payload of a (kind, type) changes only together with its counter
+	{
+		oldCnt, oldLv := st.heap("CNT", cntSort), st.heap("LV", lvSort)
+		defer func() {
+			nwLv := st.heap("LV", lvSort)
+			st.assume(fmt.Sprintf("(forall ((k!c Int) (t!c Int)) (! (=> (= (select (select %s k!c) t!c) (select (select %s k!c) t!c)) (= (select (select %s k!c) t!c) (select (select %s k!c) t!c))) :pattern ((select (select %s k!c) t!c))))",
+				st.heap("CNT", cntSort), oldCnt, nwLv, oldLv, nwLv))
+		}()
+		st.havocHeap("LV")
+	}
 	// counters only grow
 	for _, h := range []string{"CNT", "CNC"} {
 		old := st.heap(h, cntSort)
